@@ -172,7 +172,9 @@ pub struct PointVersion {
     pub ee_not_after: i64,
     #[serde(default, skip_serializing_if = "Fault::is_none")]
     pub mft_fault: Fault,
-    /// `Normal`, `Missing` (no manifest served) or `Corrupt`.
+    /// `Normal`, `Missing` (no manifest served) or `Corrupt` (a stray byte
+    /// appended — routinator still decodes and accepts such a manifest; use
+    /// `mft_fault = Garbage` for an undecodable one).
     #[serde(default, skip_serializing_if = "Publish::is_normal")]
     pub mft_publish: Publish,
     pub crl: CrlSpec,
